@@ -17,9 +17,10 @@ VARIABLES
     cols,     \* stored option record of every column
     content,  \* content[c][k] = value id (0 = absent) of plain columns
     step,     \* round-trip script position (RoundTrip spec)
+    pend,     \* the previous step left unapplied, synced logs on disk
     trace
 
-vars == <<exists, cols, content, step, trace>>
+vars == <<exists, cols, content, step, pend, trace>>
 
 Fields == {"preimage", "uniform", "rc", "btree", "multitree", "append_only", "direct"}
 Opts == [preimage : BOOLEAN, uniform : BOOLEAN, rc : BOOLEAN, comp : 0..2, btree : BOOLEAN,
@@ -48,10 +49,11 @@ Flip(o, f) ==
       [] f = "direct"      -> [o EXCEPT !.direct = ~@]
       [] f = "comp"        -> [o EXCEPT !.comp = (@ + 1) % 3]
 
-Log(e) == trace' = Append(trace, e @@ [content |-> content'])
+Log(e) == /\ trace' = Append(trace, e @@ [content |-> content'])
+          /\ pend' = (e.a = "Pending")
 
 Init ==
-    /\ exists = FALSE /\ cols = <<>> /\ content = <<>> /\ step = 0 /\ trace = <<>>
+    /\ exists = FALSE /\ cols = <<>> /\ content = <<>> /\ step = 0 /\ pend = FALSE /\ trace = <<>>
 
 Create(cs) ==
     /\ ~exists /\ Len(cs) \in 1..MaxCols /\ \A i \in 1..Len(cs) : Valid(cs[i])
@@ -122,7 +124,10 @@ RandPlainOp == [c |-> Rand(PlainCols), k |-> Rand(Keys), v |-> Rand(0..NVals)]
 
 GenNext ==
   /\ UNCHANGED step
-  /\
+  /\ pend => (\/ AddColumn(RandOpt) \/ DropLast
+               \/ Reset(Rand(1..Len(cols)), RandOpt, Rand(BOOLEAN))
+               \/ Clear(Rand(1..Len(cols))))
+  /\ ~pend =>
     \/ (~exists /\ LET n == Rand(1..MaxCols) IN Create([i \in 1..n |-> Rand(ValidOpts)]))
     \/ (exists /\ PlainCols # {} /\ Commit(<<RandPlainOp>>, FALSE))
     \/ (exists /\ PlainCols # {} /\ Commit(<<RandPlainOp, RandPlainOp>>, Rand(BOOLEAN)))
